@@ -254,8 +254,10 @@ func c19Run(sh *c19Shared, it c19Item) (res uint64) {
 		msg := r.Bytes(r.Range(1, 1600))
 		if it.light {
 			msg = r.Bytes(r.Range(1, 48))
+		} else if r.Chance(1, 12) {
+			msg = r.Bytes(r.Range(4096, 9000)) // a message of several kilobytes (a container with a policy or an SMS)
 		}
-		if it.region >= 0 {
+		if it.region >= 0 && len(msg) <= 1600 {
 			msg = c19Place(sh, it.region, msg)
 		}
 		alg, cnt, br, dr := it.kind[3]-'0', uint32(r.Intn(4)), uint8(r.Intn(2)), uint8(r.Intn(2))
